@@ -66,10 +66,10 @@ func (cm *condModel) evalValue(p *pwPath, v ssa.Value) (*ssa.Call, bool) {
 // truthyOf: v is truthy(<value of an expression evaluation>); returns that evaluation.
 func (cm *condModel) truthyOf(p *pwPath, v ssa.Value) (*ssa.Call, bool) {
 	c, ok := p.resolve(stripIface(p.resolve(v))).(*ssa.Call)
-	if !ok || c.Call.StaticCallee() != cm.truthy || len(c.Call.Args) != 2 {
+	if !ok || c.Call.StaticCallee() != cm.truthy || len(c.Call.Args) != opBase(cm.truthy)+1 {
 		return nil, false
 	}
-	return cm.evalValue(p, c.Call.Args[1])
+	return cm.evalValue(p, c.Call.Args[len(c.Call.Args)-1])
 }
 
 // rawUse: v depends on the value of an expression evaluation otherwise than
